@@ -1,8 +1,7 @@
 (* Entry points of the extracted model: [run cmd arg]. *)
 From Coq Require Import NArith List Bool.
 From PV Require Import Base.Sx Model.Forest Model.Table Model.LRDriver Model.Scan Model.Parser
-  Validators.TableStruct Validators.ForestSound Validators.TableComplete Model.Errors
-  Proofs.UnambigProofs Extract.Codec.
+  Validators.TableStruct Validators.ForestSound Validators.TableComplete Model.Errors Extract.Codec.
 From PV Require Import Extract.RunC19.
 From PV Require Import Extract.RunC12.
 From PV Require Import Extract.RunC09.
